@@ -251,6 +251,9 @@ func scEscrow() Scenario {
 		aSendToEscrow("B", 1),
 		aDepositDenom("T1", 1, 3, denom2), aCreateBidDenom(bidRef{"T1", 1, 2, 1, "P1"}, 2, 5, denom2),
 	)
+	// the same tenant spelling its address in upper-case bech32 (must be refused: ids are keyed by the owner string)
+	al = append(al, aCreateDeployment("T1^", 7, 1, 3, 10, noReq), aCloseDeployment("T1^", 7))
+	al = append(al, bidOps(bidRef{"T1^", 7, 1, 1, "P1"}, 2, false)...)
 	// a bid above the order's maximum price (3), and what a tenant could do with it if it were admitted
 	al = append(al, bidOps(bidRef{"T1", 1, 2, 1, "P1"}, 4, false)...)
 	sc.Alphabet = al
